@@ -4,7 +4,7 @@ import ast
 from .loader import dotted
 
 # normalised with the datetime expression replaced by X
-UTC_TIME_FORMS = {'calendar.timegm(X.utctimetuple())', 'timegm(X.utctimetuple())', 'int(X.timestamp())'}
+UTC_TIME_FORMS = {'calendar.timegm(X.utctimetuple())', 'timegm(X.utctimetuple())'}
 
 
 def time_sites(prog):
@@ -27,7 +27,9 @@ def time_sites(prog):
                     kind = 'local'
                 out.append((fn, n, kind, ast.unparse(n)))
             elif isinstance(n.func, ast.Attribute) and n.func.attr == 'timestamp' and not n.args:
-                out.append((fn, n, 'utc', ast.unparse(n)))
+                # datetime.timestamp() interprets a naive datetime in the process' LOCAL zone (utctimetuple treats it as UTC):
+                # the octets would then depend on the TZ of the process
+                out.append((fn, n, 'local-for-naive', ast.unparse(n)))
     return out
 
 
